@@ -14,15 +14,18 @@
      begins after the end of the name (inside the line, after the colon).
    PARTIAL: for Call-ID, CSeq, Content-Length, Contact, Expires, P-Asserted-Identity parsed into a
    PHdrVals only the upper bound of the value is proved (not that it starts after the name);
-   white-space trimming of values and the nesting of sub-fields (display name / URI / parameters / tag
-   inside the value; CSeq number and method inside the CSeq value) are proved only for texts of the
-   documented shapes (C07 / C09 / C10 specs give the exact extents there), otherwise: the structural
-   oracle of the C05 driver.
+   the nesting of sub-fields (display name / URI / parameters / tag inside the value; CSeq number and
+   method inside the CSeq value) is proved only for texts of the documented shapes (C07 / C09 / C10
+   specs give the exact extents there), otherwise: the structural oracle of the C05 driver.
+   White-space trimming (TrimSpec.v, every input): a value reported by ParseHdrLine / ParseHeaders
+   without PHdrVals (the generic value path) is empty, or its first and its last byte are not white
+   space (C05_header_value_trimmed, C05_stored_values_trimmed); with PHdrVals the values of the eight
+   specially parsed kinds are the value parsers' own spans (exact for the documented shapes).
    The first-line fields among themselves (C05_first_line_fields_in_order, from the C08 converse):
    in every accepted first line method, URI and version (resp. version, status code, reason) are
    non-overlapping, in text order, one byte apart, the first starting at the start offset and the
    last ending one or two bytes (the line end) before the returned offset. *)
-From Sipsp Require Import Harness Framing Resume SafeMore SafeMsg Layout FLineConv.
+From Sipsp Require Import Harness Framing Resume SafeMore SafeMsg Layout FLineConv TrimSpec.
 From Sipsp Require Import Tables.
 
 Theorem C05_body_and_raw_message : forall m h e,
@@ -114,5 +117,18 @@ Theorem C05_first_line_fields_in_order : forall (p rest : list byte) o s,
   else po (fl_method s) = i /\ 0 < pl (fl_method s) /\ pf_end (fl_method s) + 1 = po (fl_uri s) /\ 0 < pl (fl_uri s) /\
        pf_end (fl_uri s) + 1 = po (fl_version s) /\ 0 < pl (fl_version s) /\ pf_end (fl_version s) < o /\ o <= pf_end (fl_version s) + 2.
 Proof. exact first_line_fields_in_order. Qed.
+Theorem C05_header_value_trimmed : forall buf offs o st', offs <= nnat (length buf) ->
+  parse_hdrline buf offs (mkhline hdr0 None) = Done o EOk st' -> trimmed buf (h_val (hx_h st')).
+Proof. exact hdrline_value_trimmed. Qed.
+Theorem C05_stored_values_trimmed : forall buf offs ncap o st', offs <= nnat (length buf) ->
+  parse_headers buf offs (mkhdrs_st (hdrlst_init (repeat hdr0 ncap)) None) = Done o EOk st' ->
+  forall j, (j < N.to_nat (hl_n (hs_l st')))%nat -> (j < length (hl_hdrs (hs_l st')))%nat ->
+    trimmed buf (h_val (nth j (hl_hdrs (hs_l st')) hdr0)).
+Proof. exact headers_values_trimmed. Qed.
+Theorem C05_trimmed_means : forall buf v, trimmed buf v <->
+  pl v = 0 \/ ((exists c, nth_error buf (N.to_nat (po v)) = Some c /\ is_ws c = false) /\
+               (exists c, nth_error buf (N.to_nat (pf_end v - 1)) = Some c /\ is_ws c = false)).
+Proof. intros. reflexivity. Qed.
 Print Assumptions C05_message.
 Print Assumptions C05_message_every_schedule.
+Print Assumptions C05_stored_values_trimmed.
